@@ -1155,6 +1155,51 @@ func (c *runCtx) step(op opRec) (executed bool, err error) {
 	case "autoalphabet":
 		return c.autoAlphabet(op)
 
+	case "codonalign":
+		return c.codonAlign(op)
+
+	case "identical":
+		// Identical doc: same number of sequences and each sequence has a sequence of the same name and
+		// the same residues in the other set; the order may differ
+		if coll {
+			return c.skip("identical", "name-collision")
+		}
+		comp := append([]row(nil), m.rows...)
+		for i, j := 0, len(comp)-1; i < j; i, j = i+1, j-1 {
+			comp[i], comp[j] = comp[j], comp[i]
+		}
+		want := true
+		k := mod(op.n(1), n)
+		switch mode := mod(op.n(0), 5); {
+		case mode == 1 && n > 0 && len(comp[k].Seq) > 0:
+			b := []byte(comp[k].Seq)
+			b[mod(op.n(2), len(b))] ^= 0x20 // another case of the same letter, or another character
+			comp[k].Seq = string(b)
+			want = false
+		case mode == 2 && n > 0:
+			comp[k].Name += "'"
+			want = false
+		case mode == 3 && n > 0:
+			comp = append(comp[:k], comp[k+1:]...)
+			want = false
+		case mode == 4:
+			comp = append(comp, row{Name: absentProbe, Seq: "A"})
+			want = false
+		}
+		other := align.NewSeqBag(m.alphabet)
+		for _, r := range comp {
+			other.AddSequence(r.Name, r.Seq, "")
+		}
+		if got := c.sb.Identical(other); got != want {
+			return true, fmt.Errorf("Identical(%s) = %v, expected %v (receiver %s)", showRows(comp), got, want, showRows(m.rows))
+		}
+		if c.nameEdited {
+			c.invalidations++
+			c.o.Class("inv:rename>identical")
+		}
+		c.o.Class("identical=%v", want)
+		return true, nil
+
 	case "setalphabet":
 		req := []int{align.NUCLEOTIDS, align.AMINOACIDS, align.BOTH, align.UNKNOWN, 9}[mod(op.n(0), 5)]
 		e := c.sb.SetAlphabet(req)
@@ -1537,6 +1582,96 @@ func keysOf(m map[int]bool) []int {
 	}
 	sort.Ints(k)
 	return k
+}
+
+// ---- CodonAlign -------------------------------------------------------------------------------------
+
+// codonAlign: CodonAlign looks the nucleotide sequence of every row up BY NAME in another set and
+// returns a new alignment (doc comment: error if the receiver is not amino acids or the set not
+// nucleotides; gaps are added where the protein has gaps; at most two trailing bases are dropped;
+// a nucleotide sequence that is shorter, or longer by more than two, is an error; a name that is
+// absent from the set is an error). The receiver must stay as it is.
+func (c *runCtx) codonAlign(op opRec) (bool, error) {
+	m := c.m
+	if m.bag {
+		return c.skip("codonalign", "not-an-alignment")
+	}
+	if m.collided() {
+		return c.skip("codonalign", "name-collision")
+	}
+	n := len(m.rows)
+	extra := []int{0, 0, 1, 2, 3, 5, -1, -3}[mod(op.n(0), 8)]
+	victim := mod(op.n(2), n)
+	omit := -1
+	if op.n(1) >= 0 && n > 0 {
+		omit = mod(op.n(1), n)
+	}
+	ntAlpha := align.NUCLEOTIDS
+	if op.b(0) {
+		ntAlpha = align.AMINOACIDS
+	}
+	nts := align.NewSeqBag(ntAlpha)
+	valid := m.alphabet == align.AMINOACIDS && ntAlpha == align.NUCLEOTIDS
+	var want []row
+	for i := n - 1; i >= 0; i-- { // the set is filled in another order than the alignment
+		r := m.rows[i]
+		need := 3 * (len(r.Seq) - strings.Count(r.Seq, "-"))
+		l := need
+		if i == victim {
+			l += extra
+			if l < 0 {
+				l = 0
+			}
+			if l < need || l > need+2 {
+				valid = false
+			}
+		}
+		if i == omit {
+			valid = false
+			continue
+		}
+		nts.AddSequence(r.Name, fit(op.s(0), l), "")
+	}
+	for _, r := range m.rows {
+		nt := fit(op.s(0), 3*len(r.Seq))
+		var b strings.Builder
+		k := 0
+		for j := 0; j < len(r.Seq); j++ {
+			if r.Seq[j] == '-' {
+				b.WriteString("---")
+			} else if k+3 <= len(nt) {
+				b.WriteString(nt[k : k+3])
+				k += 3
+			}
+		}
+		want = append(want, row{r.Name, b.String(), r.Comment})
+	}
+	res, e := c.al().CodonAlign(nts)
+	what := fmt.Sprintf("CodonAlign(extra %d on row %d, omitted row %d, set alphabet %d) on %s", extra, victim, omit, ntAlpha, showRows(m.rows))
+	if !valid {
+		if err := c.checkErr(what, e, wantErr); err != nil {
+			return true, err
+		}
+		c.o.Class("codonalign:rejected")
+		c.afterError()
+		return true, nil
+	}
+	if err := c.checkErr(what, e, wantNoErr); err != nil {
+		return true, err
+	}
+	if res == nil {
+		return true, fmt.Errorf("%s returned nil", what)
+	}
+	rm := &model{rows: want, alphabet: align.NUCLEOTIDS, policy: align.IGNORE_NONE}
+	if e := observe(res, rm); e != nil {
+		return true, fmt.Errorf("%s: result: %v", what, e)
+	}
+	if c.nameEdited {
+		c.invalidations++
+		c.o.Class("inv:rename>codonalign")
+	}
+	c.o.Class("codonalign:done")
+	return true, nil
 }
 
 // ---- Translate ----------------------------------------------------------------------------------
